@@ -171,7 +171,19 @@ def a_del_cells(m, op):
 def a_rename_cells(m, op):
     s = sp(m, op["space"])
     old, new = op["name"], op["new"]
-    for t in [s] + rm.subs_of(m, s):
+    cells = s.cells.get(old)
+    # decide first, rename afterwards: a sub's overriding cells follows if the renamed cells is its nearest definition
+    targets = [s]
+    for t in rm.subs_of(m, s):
+        if old in t.cells:
+            nearest = None
+            for b in rm.mro(t)[1:]:
+                if old in b.cells:
+                    nearest = b
+                    break
+            if nearest is s and new not in rm.derived_cells(t):
+                targets.append(t)
+    for t in targets:
         if old in t.cells:
             c = t.cells[old]
             _rekey(t.cells, old, new)
